@@ -161,7 +161,7 @@ func (o *Observed) canon(n *Node) string {
 	return b.String()
 }
 
-var ctxProbe = []string{"k1", "k2"}
+var ctxProbe = []string{"k1", "k2", "k3", "k4", "k5", "k6", "k7", "k8"}
 
 // NewCase generates and runs one case.
 // acceptable: does the implementation report no issues for one of a few generated inputs?
